@@ -82,18 +82,80 @@ Definition rust_lines (s : string) : list string := rust_lines_aux (split_nl s).
 Definition first_line (s : string) : string :=
   match rust_lines s with x :: _ => x | [] => s end.
 
+(* ------------------------------------------------------------------ comments of an AST *)
+(* A `trailing` field holds one comment, or several joined by "\n" (expressions.rs:1997). *)
+Definition trailing_comments (t : option string) : list string :=
+  match t with Some s => split_nl s | None => [] end.
+
+Section CommentFolds.
+  Variable f : expr -> list string.
+  Fixpoint items_comments (l : list (commented expr)) : list string :=
+    match l with
+    | [] => []
+    | Cm lead n tr :: r => lead ++ f n ++ trailing_comments tr ++ items_comments r
+    end.
+  Definition entry_comments (e : rentry) : list string :=
+    match e with
+    | REntry (KStatic _) v => f v
+    | REntry (KDyn k) v => f k ++ f v
+    | REntry (KShort _) _ => []
+    | REntry (KSpread x) _ => f x
+    end.
+  Fixpoint entries_comments (l : list (commented rentry)) : list string :=
+    match l with
+    | [] => []
+    | Cm lead e tr :: r => lead ++ entry_comments e ++ trailing_comments tr ++ entries_comments r
+    end.
+End CommentFolds.
+
+(* The comment sequence carried by a (commented) AST, in source order. *)
+Fixpoint expr_comments (e : expr) : list string :=
+  match e with
+  | EList items => items_comments expr_comments items
+  | ERec entries => entries_comments expr_comments entries
+  | ELam _ body => expr_comments body
+  | ECond c t f => expr_comments c ++ expr_comments t ++ expr_comments f
+  | EDo stmts (Cm rl rn rt) =>
+      items_comments expr_comments stmts ++ rl ++ expr_comments rn ++ trailing_comments rt
+  | EAssign _ v => expr_comments v
+  | EOutput x => expr_comments x
+  | ECall f args => expr_comments f ++ flat_map expr_comments args
+  | EAccess a i => expr_comments a ++ expr_comments i
+  | EDot a _ => expr_comments a
+  | EBin _ l r => expr_comments l ++ expr_comments r
+  | EUn _ a => expr_comments a
+  | EFact a => expr_comments a
+  | ESpread a => expr_comments a
+  | _ => []
+  end.
+
+(* comment-free *)
+Definition cfree (e : expr) : bool := match expr_comments e with [] => true | _ => false end.
+
 (* ------------------------------------------------------------------ documents *)
-Inductive piece := Code (s : string) | Comment (c : string) | Nl.
+(* Code s: literal layout text.  Opaque e s: the text s that expr_to_source / format_single_line
+   printed for the whole expression e (rendered as s; e is kept only so that theorems can say
+   which sub-expressions were printed without looking inside).  Comment c.  Nl: "\n". *)
+Inductive piece := Code (s : string) | Opaque (e : expr) (s : string) | Comment (c : string) | Nl.
 Definition doc := list piece.
 
 Definition render_piece (p : piece) : string :=
-  match p with Code s => s | Comment c => c | Nl => nl end.
+  match p with Code s => s | Opaque _ s => s | Comment c => c | Nl => nl end.
 Fixpoint render (d : doc) : string :=
   match d with [] => "" | p :: r => render_piece p +++ render r end.
 
 Definition piece_comments (p : piece) : list string :=
   match p with Comment c => [c] | _ => [] end.
 Definition doc_comments (d : doc) : list string := flat_map piece_comments d.
+
+(* the expressions printed opaquely, and the comments the document accounts for: those it
+   shows plus those carried by the opaquely printed expressions *)
+Definition piece_opaque (p : piece) : list expr :=
+  match p with Opaque e _ => [e] | _ => [] end.
+Definition doc_opaque (d : doc) : list expr := flat_map piece_opaque d.
+Definition piece_all_comments (p : piece) : list string :=
+  match p with Comment c => [c] | Opaque e _ => expr_comments e | _ => [] end.
+Definition doc_all_comments (d : doc) : list string := flat_map piece_all_comments d.
 
 (* the same document as a list of lines *)
 Fixpoint dlines_aux (cur : list piece) (d : doc) : list (list piece) :=
@@ -106,8 +168,8 @@ Definition dlines (d : doc) : list (list piece) := dlines_aux [] d.
 
 Definition ind (n : nat) : piece := Code (make_indent n).
 
-(* A `trailing` field holds one comment, or several joined by "\n" (expressions.rs:1997).  The
-   formatter pushes the string as it is; as a document it is one Comment piece per line. *)
+(* The formatter pushes a `trailing` string as it is; as a document it is one Comment piece
+   per line. *)
 Fixpoint dcomment_lines (l : list string) : doc :=
   match l with
   | [] => []
@@ -115,50 +177,6 @@ Fixpoint dcomment_lines (l : list string) : doc :=
   | c :: r => Comment c :: Nl :: dcomment_lines r
   end.
 Definition dtrailing (t : string) : doc := dcomment_lines (split_nl t).
-
-(* ------------------------------------------------------------------ comments of an AST *)
-Definition trailing_comments (t : option string) : list string :=
-  match t with Some s => split_nl s | None => [] end.
-
-(* The comment sequence carried by a (commented) AST, in source order. *)
-Fixpoint expr_comments (e : expr) : list string :=
-  match e with
-  | EList items =>
-      (fix go (l : list (commented expr)) : list string :=
-         match l with
-         | [] => []
-         | Cm lead n tr :: r => lead ++ expr_comments n ++ trailing_comments tr ++ go r
-         end) items
-  | ERec entries =>
-      (fix go (l : list (commented rentry)) : list string :=
-         match l with
-         | [] => []
-         | Cm lead (REntry k v) tr :: r =>
-             lead ++
-             (match k with KDyn x | KSpread x => expr_comments x | _ => [] end) ++
-             (match k with KStatic _ | KDyn _ => expr_comments v | _ => [] end) ++
-             trailing_comments tr ++ go r
-         end) entries
-  | ELam _ body => expr_comments body
-  | ECond c t f => expr_comments c ++ expr_comments t ++ expr_comments f
-  | EDo stmts (Cm rl rn rt) =>
-      (fix go (l : list (commented expr)) : list string :=
-         match l with
-         | [] => []
-         | Cm lead n tr :: r => lead ++ expr_comments n ++ trailing_comments tr ++ go r
-         end) stmts
-      ++ rl ++ expr_comments rn ++ trailing_comments rt
-  | EAssign _ v => expr_comments v
-  | EOutput x => expr_comments x
-  | ECall f args => expr_comments f ++ flat_map expr_comments args
-  | EAccess a i => expr_comments a ++ expr_comments i
-  | EDot a _ => expr_comments a
-  | EBin _ l r => expr_comments l ++ expr_comments r
-  | EUn _ a => expr_comments a
-  | EFact a => expr_comments a
-  | ESpread a => expr_comments a
-  | _ => []
-  end.
 
 (* Commented::has_comments *)
 Definition has_comments {A} (c : commented A) : bool :=
@@ -335,9 +353,9 @@ Section Fmt.
           if contains_nl rs then
             (* Rust re-assembles the right operand from `lines()`; when that is the identity
                (no "\r\n", no trailing "\n") the result is the document itself, otherwise the
-               re-assembled text is kept as one opaque code piece *)
+               re-assembled text is kept as one opaque piece *)
             left ++ [Code " "; Code op_str; Code " "] ++
-            (if String.eqb (relined rs) rs then right else [Code (relined rs)])
+            (if String.eqb (relined rs) rs then right else [Opaque r (relined rs)])
           else left ++ [Code " "; Code op_str; Code " "] ++ right
         else
           left ++ [Nl; ind i; Code op_str; Code " "] ++ wrap_parens rp (rec r i)
@@ -371,7 +389,7 @@ Section Fmt.
       | ECall f args => call_doc f args i
       | EBin op l r => binop_doc op l r i
       | EDo stmts ret => do_doc stmts ret i
-      | _ => [Code (e2s e)]
+      | _ => [Opaque e (e2s e)]
       end.
 
     (* the single-line test of format_expr_impl (27-38) *)
@@ -384,7 +402,7 @@ Section Fmt.
       match e with
       | ELam args body => lambda_doc args body i
       | EDo stmts ret => multiline_doc e i
-      | _ => if fits_single e i then [Code (fsl e)] else multiline_doc e i
+      | _ => if fits_single e i then [Opaque e (fsl e)] else multiline_doc e i
       end.
   End Layouts.
 
@@ -423,6 +441,30 @@ Fixpoint join_spacing (l : list (doc * Z * Z)) : doc :=
       match rest with
       | [] => d
       | (_, s', _) :: _ => d ++ repeat Nl (Z.to_nat (gap_newlines e s')) ++ join_spacing rest
+      end
+  end.
+
+(* Where the statements of a program end up in the text join_spacing produces: statement k
+   starts on the line after the previous statement's last line plus the newlines emitted
+   between them, and spans as many further lines as its text has "\n" (pest's line_col counts
+   "\n").  `relayout start l` replaces the recorded (start_line, end_line) of every statement by
+   these positions, the first statement starting on line `start`. *)
+Fixpoint text_height (s : string) : Z :=
+  match s with
+  | "" => 0%Z
+  | String c r => ((if Ascii.eqb c NLc then 1 else 0) + text_height r)%Z
+  end.
+Definition doc_height (d : doc) : Z := text_height (render d).
+
+Fixpoint relayout (start : Z) (l : list (doc * Z * Z)) : list (doc * Z * Z) :=
+  match l with
+  | [] => []
+  | (d, _, e) :: rest =>
+      let e' := (start + doc_height d)%Z in
+      (d, start, e') ::
+      match rest with
+      | [] => []
+      | (_, s', _) :: _ => relayout (e' + gap_newlines e s')%Z rest
       end
   end.
 
@@ -612,7 +654,13 @@ Section Run.
   Definition run_cli_fixed (p : list stmt) : doc := format_cli_fixed e2s np record_key_impl p.
 End Run.
 
+(* "<hex text> <shown comments> <comments under opaquely printed expressions>" *)
 Definition show_doc (d : doc) : string :=
-  hex_of_string (render d) +++ " " +++ sjoin "," (map hex_of_string (doc_comments d)).
+  hex_of_string (render d) +++ " " +++ sjoin "," (map hex_of_string (doc_comments d)) +++ " " +++
+  sjoin "," (map hex_of_string (flat_map expr_comments (doc_opaque d))).
 Definition show_odoc (o : option doc) : string :=
   match o with Some d => "OK " +++ show_doc d | None => "EMPTY" end.
+
+(* positions (start_line, end_line) of the statements in the text the library driver emits *)
+Definition show_positions (l : list (doc * Z * Z)) : string :=
+  sjoin "," (map (fun x => hex16 (snd (fst x)) +++ ":" +++ hex16 (snd x)) l).
